@@ -458,6 +458,8 @@ func checkNotifyEquiv(cx *CheckCtx, a *Analysis, key string, notif, change *Site
 
 func runC05(cx *CheckCtx) {
 	w := cx.W
+	// "the fee values configured in Netmap at that moment": a submitted setting is always stored
+	checkNetmapSetConfigAlways(cx, "fee-config")
 	m := cx.method("container", "PutNamed")
 	if m == nil {
 		return
